@@ -100,9 +100,12 @@ def program(g, sim, base, m, script, check):
     permitted = {Seen, Deleted, Flagged, g['Answered'], g['Draft']}
     fl = {'S': Seen, 'D': Deleted, 'F': Flagged, 'K': g['Flag'](b'kw'), 'R': Recent}
     model = {'INBOX': [], 'Other': []}          # lists of [uid, set(flags)]
+    import datetime as _dt
+    # every message is appended with this date-time, written with an offset that is not the server's
+    WHEN = _dt.datetime(2020, 1, 15, 12, 0, 0, tzinfo=_dt.timezone(_dt.timedelta(hours=5, minutes=30)))
     for i in range(m):
         init = [Deleted] if i % 2 else []
-        cond, resp = w.append(0, flags=init)
+        cond, resp = w.append(0, flags=init, when=WHEN)
         uid = sorted(resp.code.uids)[0] if False else list(resp.code.uids)[0]
         model['INBOX'].append([uid, set(init)])
     w.select(0)
@@ -119,6 +122,11 @@ def program(g, sim, base, m, script, check):
                 if set(flags) != mflags:
                     return '%s: %s flags %r, model %r' % (
                         where, name, sorted(bytes(f) for f in flags), sorted(bytes(f) for f in mflags))
+            # APPEND stores the given date, COPY and MOVE duplicate it
+            for msg in w.mbx(name)._messages.values():
+                d = msg.internal_date
+                if d.tzinfo is None or d != WHEN:
+                    return '%s: %s holds a message dated %s, appended as %s' % (where, name, d.isoformat(), WHEN.isoformat())
         return None
 
     for op, a in script:
@@ -208,7 +216,7 @@ def program(g, sim, base, m, script, check):
                 check(x < y, 'destination UIDs not increasing')
         elif op == 'append':
             flags = [fl[c] for c in a['flags']]
-            cond, resp = w.append(0, flags=flags)
+            cond, resp = w.append(0, flags=flags, when=WHEN)
             if cond != 'OK':
                 return 'APPEND answered %s' % cond
             uid = list(resp.code.uids)[0]
